@@ -29,9 +29,10 @@ CLASSES = {
         methsel={'unpack': ['field:Data._unpack_fixed_size', 'field:Data._unpack_variable_size_field',
                             'field:Data._unpack_variable_size_callable', 'field:Data._unpack_with_string_marker',
                             'field:Data._unpack_with_regexp_marker']}),
-    'UnaryExpr': dict(module='deferred', bases=[], attrs={}),
-    'BinaryExpr': dict(module='deferred', bases=[], attrs={}),
-    'NaryExpr': dict(module='deferred', bases=[], attrs={}),
+    'UnaryExpr': dict(module='deferred', bases=[], attrs={'arg': 'dyn', 'op': 'dyn'}),
+    'BinaryExpr': dict(module='deferred', bases=[], attrs={'left': 'dyn', 'right': 'dyn', 'op': 'dyn'}),
+    'NaryExpr': dict(module='deferred', bases=[], attrs={'left': 'dyn', 'arglist': 'dyn', 'argmapping': 'dyn', 'op': 'dyn'}),
+    'Operations': dict(module='deferred', bases=[], attrs={'ops': 'list'}),
     'Bits': dict(module='field', bases=['Field'], attrs={
         'mask': 'int', 'bit_count': 'int', 'iam_first': 'bool', 'iam_last': 'bool',
         'shift': 'int', 'I': 'ref:Int', 'members': 'list',
